@@ -31,6 +31,18 @@ def gate(ctrl, tag, name, info=""):
         import signal
         os.kill(os.getppid(), signal.SIGKILL)
         os.kill(os.getpid(), signal.SIGKILL)
+    if mode.startswith("killcconce:") and mode.split(":")[1] == name:
+        # the compiler dies here the first time only (a transient fault); a second attempt finds a working compiler
+        marker = os.path.join(ctrl, tag + ".once")
+        if not os.path.exists(marker):
+            open(marker, "w").close()
+            import signal
+            sig = mode.split(":")[2]
+            if sig == "EXIT1":
+                sys.exit(1)
+            os.kill(os.getpid(), getattr(signal, sig))
+            time.sleep(5)
+        return
     if mode.startswith("killcc:") and mode.split(":")[1] == name:
         # the compiler alone dies on a signal (OOM killer, user kill); the caller survives
         import signal
